@@ -236,8 +236,8 @@ def all_ranges(g, walk):
     return [(s, e) for s in range(pl) for e in range(s + 1, pl + 1)]
 
 
-def write_lines(path, recs, bgzf=False):
-    txt = "".join("\t".join(r) + "\n" if not isinstance(r, str) else r + "\n" for r in recs)
+def write_lines(path, recs, bgzf=False, eol="\n"):
+    txt = "".join("\t".join(r) + eol if not isinstance(r, str) else r + eol for r in recs)
     if bgzf:
         from pysam import libcbgzf
 
@@ -245,8 +245,8 @@ def write_lines(path, recs, bgzf=False):
         w.write(txt.encode())
         w.close()
     else:
-        with open(path, "w") as f:
-            f.write(txt)
+        with open(path, "wb") as f:  # bytes: no newline translation, UTF-8 whatever the locale
+            f.write(txt.encode("utf-8"))
 
 
 # ---- independent readers -----------------------------------------------------------------------
